@@ -5,7 +5,7 @@ out = subprocess.run(['/verif/tools/seedmatrix.sh'], capture_output=True, text=T
 res = {}
 cur = None
 for line in out.splitlines():
-    m = re.match(r'^(C\d+-\w+) (C\d+) (DETECTED|missed|APPLY-FAILED)', line)
+    m = re.match(r'^(C\d+-\w+) (C\d+) (DETECTED|missed|APPLY-FAILED|CHECKER-CRASHED)', line)
     if m:
         cur = m.group(1); res.setdefault(cur, {'status': m.group(3), 'findings': []})['status'] = m.group(3)
         continue
@@ -13,6 +13,17 @@ for line in out.splitlines():
     if m:
         res.setdefault(m.group(1), {'status': 'DETECTED', 'findings': []})['findings'].append(m.group(2))
 why_missed = {
+ 'C02-Ar4': 'emitted-Python data flow: decode() returns self except in the early exit for a packet without fields, callers now store the result; a property of the emitted program (which def returns what)',
+ 'C02-Br4': 'emitted-Python semantics: a mutable default argument ([]) shared by every instance; needs Python evaluation rules, not a relation between the generator and the model',
+ 'C03-Br4': 'value-level: the minimum-size estimate emitted as the Rust decoder\'s refusal threshold counts a repeated object as one mandatory element; detected under C11 (R-bounded-recursion: the estimate recurses over packet references without a visited set), not under C03',
+ 'C04-Ar4': 'value-level / emitted-Go control flow: the measured length is assigned only inside the nil guard of the target, the back-patch still runs; same family as C04-A',
+ 'C05-Ar4': 'emitted-Go control flow: the decoder instantiates the payload only when the member is nil (same family as C05-Br3)',
+ 'C05-Br4': 'value-level: the Java factory key type is widened to Integer for byte/short keys while the decoded (signed) field is passed as is; sign behaviour of the emitted program',
+ 'C06-Ar4': 'emitted-C++ scoping: the checksum value is declared again inside the if block and shadows the one that is written; needs a C++ front end',
+ 'C06-Br4': 'emitted-Go data flow: the target is encoded into a scratch buffer and appended, the checksum service inside it then sees the scratch buffer instead of the frame; a property of the emitted program',
+ 'C10-Br4': 'value-level: one blank more in front of a comment that one of four callers puts on a line of its own; the shape analysis tracks how a text starts and ends, not how many blanks it starts with',
+ 'C15-Ar4': 'emitted-Lua operator precedence (k == 2 or 3); needs Lua semantics',
+ 'C15-Br4': 'the ordering pass now also filters inline objects through its name-keyed visited set; names of inline objects are unique only within their owner. Deciding it needs the uniqueness domain of Packet.Name per construct, which the emit-once rule does not model (it accepts Packet.Name as an identity)',
  'C02-Ar3': 'emitted-Python layout: only the first line of a multi-line loop body is indented (a blank prefix instead of the per-line indent helper); indentation of emitted text is a property of the emitted program, a may-analysis of which strings are multi-line would have to be path-sensitive per field kind to stay silent on correct code',
  'C02-Br3': 'kind coverage of a text/number decision for match keys in the Rust emitter (char[n] keys treated as numbers): every structural relation of the wire matrix is intact; the emitted Rust fails to type-check',
  'C04-Ar3': 'value-level: the emitted Go arithmetic measures from the length slot instead of from the start of the target (same family as C04-A / C04-Ar2)',
